@@ -95,7 +95,7 @@ mod k {
     #[kani::stub(<EdwardsPoint as core::ops::Neg>::neg, m_neg)]
     fn c09_raw_verify_matches_rfc8032() {
         let kb: [u8; 32] = kani::any(); let sb: [u8; 64] = kani::any();
-        let msg: [u8; 4] = kani::any(); let mlen: usize = kani::any(); kani::assume(mlen <= 4);
+        let msg: [u8; 2] = kani::any(); let mlen: usize = kani::any(); kani::assume(mlen <= 2);
         let vk = VerifyingKey::from_bytes(&kb);
         let sig = Signature::from_bytes(&sb);
         let got = match &vk { Ok(vk) => Some(crate::hazmat::raw_verify::<MD>(vk, &msg[..mlen], &sig).is_ok()), Err(_) => None };
@@ -114,8 +114,8 @@ mod k {
     #[kani::stub(<EdwardsPoint as core::ops::Neg>::neg, m_neg)]
     fn c09_raw_verify_prehashed_matches_rfc8032_dom2() {
         let kb: [u8; 32] = kani::any(); let sb: [u8; 64] = kani::any();
-        let ph: [u8; 3] = kani::any(); let plen: usize = kani::any(); kani::assume(plen <= 3);
-        let cx: [u8; 3] = kani::any(); let clen: usize = kani::any(); kani::assume(clen <= 3);
+        let ph: [u8; 1] = kani::any(); let plen: usize = kani::any(); kani::assume(plen <= 1);
+        let cx: [u8; 1] = kani::any(); let clen: usize = kani::any(); kani::assume(clen <= 1);
         let has_ctx: bool = kani::any();
         let vk = VerifyingKey::from_bytes(&kb);
         let sig = Signature::from_bytes(&sb);
@@ -128,6 +128,89 @@ mod k {
         let c: &[u8] = if has_ctx { &cx[..clen] } else { &empty };
         assert!(got == spec_verify(&kb, &sb, &digest, Some(c), false));
         kani::cover!(got == Some(true));
+    }
+
+    // the non-hazmat entry points hash with SHA-512: the private helper that computes H(dom2 || R || A || M) is
+    // replaced by the same model transcript hash the reference uses (SHA-512 itself is trusted, M5)
+    fn m_challenge<D>(context: Option<&[u8]>, R: &CompressedEdwardsY, A: &CompressedEdwardsY, M: &[u8]) -> Scalar
+    where D: curve25519_dalek::digest::Digest<OutputSize = U64> {
+        let hb = match context { None => md(&[&R.0, &A.0, M]), Some(c) => md(&[DOM, &[1u8], &[c.len() as u8], c, &R.0, &A.0, M]) };
+        m_wide(&hb)
+    }
+    macro_rules! verify_stubs { ($($item:item)*) => { $(
+        #[kani::proof]
+        #[kani::unwind(70)]
+        #[kani::stub(CompressedEdwardsY::decompress, m_decompress)]
+        #[kani::stub(EdwardsPoint::vartime_double_scalar_mul_basepoint, m_dsm)]
+        #[kani::stub(EdwardsPoint::compress, m_compress)]
+        #[kani::stub(EdwardsPoint::is_small_order, m_small_order)]
+        #[kani::stub(Scalar::from_canonical_bytes, m_canon)]
+        #[kani::stub(<EdwardsPoint as core::ops::Neg>::neg, m_neg)]
+        #[kani::stub(crate::verifying::VerifyingKey::compute_challenge, m_challenge)]
+        $item )* } }
+    verify_stubs! {
+    fn c09_verify_strict_matches_spec() {
+        let kb: [u8; 32] = kani::any(); let sb: [u8; 64] = kani::any();
+        let msg: [u8; 2] = kani::any(); let mlen: usize = kani::any(); kani::assume(mlen <= 2);
+        let vk = VerifyingKey::from_bytes(&kb); let sig = Signature::from_bytes(&sb);
+        let got = match &vk { Ok(vk) => Some(vk.verify_strict(&msg[..mlen], &sig).is_ok()), Err(_) => None };
+        assert!(got == spec_verify(&kb, &sb, &msg[..mlen], None, true));
+        kani::cover!(got == Some(true));
+    }
+    fn c09_verify_matches_spec() {
+        use crate::Verifier;
+        let kb: [u8; 32] = kani::any(); let sb: [u8; 64] = kani::any();
+        let msg: [u8; 2] = kani::any(); let mlen: usize = kani::any(); kani::assume(mlen <= 2);
+        let vk = VerifyingKey::from_bytes(&kb); let sig = Signature::from_bytes(&sb);
+        let got = match &vk { Ok(vk) => Some(vk.verify(&msg[..mlen], &sig).is_ok()), Err(_) => None };
+        assert!(got == spec_verify(&kb, &sb, &msg[..mlen], None, false));
+        kani::cover!(got == Some(true));
+    }
+    }
+    #[cfg(feature = "digest")]
+    verify_stubs! {
+    fn c09_verify_prehashed_strict_matches_spec() {
+        let kb: [u8; 32] = kani::any(); let sb: [u8; 64] = kani::any();
+        let ph: [u8; 1] = kani::any(); let plen: usize = kani::any(); kani::assume(plen <= 1);
+        let cx: [u8; 1] = kani::any(); let clen: usize = kani::any(); kani::assume(clen <= 1);
+        let has_ctx: bool = kani::any();
+        let vk = VerifyingKey::from_bytes(&kb); let sig = Signature::from_bytes(&sb);
+        let mut pre = MD::default(); pre.update(&ph[..plen]);
+        let digest = md(&[&ph[..plen]]);
+        let ctx = if has_ctx { Some(&cx[..clen]) } else { None };
+        let got = match &vk { Ok(vk) => Some(vk.verify_prehashed_strict(pre, ctx, &sig).is_ok()), Err(_) => None };
+        let empty: [u8; 0] = [];
+        let c: &[u8] = if has_ctx { &cx[..clen] } else { &empty };
+        assert!(got == spec_verify(&kb, &sb, &digest, Some(c), true));
+        kani::cover!(got == Some(true));
+    }
+    fn c09_verify_prehashed_matches_spec() {
+        let kb: [u8; 32] = kani::any(); let sb: [u8; 64] = kani::any();
+        let ph: [u8; 1] = kani::any(); let plen: usize = kani::any(); kani::assume(plen <= 1);
+        let cx: [u8; 1] = kani::any(); let clen: usize = kani::any(); kani::assume(clen <= 1);
+        let has_ctx: bool = kani::any();
+        let vk = VerifyingKey::from_bytes(&kb); let sig = Signature::from_bytes(&sb);
+        let mut pre = MD::default(); pre.update(&ph[..plen]);
+        let digest = md(&[&ph[..plen]]);
+        let ctx = if has_ctx { Some(&cx[..clen]) } else { None };
+        let got = match &vk { Ok(vk) => Some(vk.verify_prehashed(pre, ctx, &sig).is_ok()), Err(_) => None };
+        let empty: [u8; 0] = [];
+        let c: &[u8] = if has_ctx { &cx[..clen] } else { &empty };
+        assert!(got == spec_verify(&kb, &sb, &digest, Some(c), false));
+        kani::cover!(got == Some(true));
+    }
+    }
+
+    // legacy_compatibility: only the range check on S is relaxed to its top three bits
+    #[cfg(feature = "legacy_compatibility")]
+    #[kani::proof]
+    #[kani::unwind(70)]
+    fn c09_legacy_check_scalar_top_three_bits() {
+        let sb: [u8; 64] = kani::any();
+        let r = crate::signature::InternalSignature::from_bytes(&sb);
+        assert!(r.is_ok() == (sb[63] & 0b1110_0000 == 0));
+        if let Ok(s) = r { let (_r, sbytes) = split(&sb); let mut m = sbytes; m[31] &= 127; assert!(*s.s.as_bytes() == m); }
+        kani::cover!(r.is_ok()); kani::cover!(sb[63] == 0x20);
     }
 
     // ------------------------------------------------------------------ C08
@@ -155,7 +238,7 @@ mod k {
     fn c08_raw_sign_matches_rfc8032() {
         let eb: [u8; 64] = kani::any();
         let kb: [u8; 32] = kani::any(); kani::assume(kb[0] & 1 == 0);
-        let msg: [u8; 4] = kani::any(); let mlen: usize = kani::any(); kani::assume(mlen <= 4);
+        let msg: [u8; 2] = kani::any(); let mlen: usize = kani::any(); kani::assume(mlen <= 2);
         let esk = crate::hazmat::ExpandedSecretKey::from_bytes(&eb);
         // key expansion (RFC 8032 5.1.5 after hashing): clamp the lower half, keep the upper half as prefix
         let (lo, hi) = split(&eb);
@@ -171,7 +254,7 @@ mod k {
 
     #[cfg(feature = "digest")]
     #[kani::proof]
-    #[kani::unwind(300)]
+    #[kani::unwind(70)]
     #[kani::stub(CompressedEdwardsY::decompress, m_decompress)]
     #[kani::stub(EdwardsPoint::mul_base, m_mul_base)]
     #[kani::stub(EdwardsPoint::compress, m_compress)]
@@ -182,8 +265,8 @@ mod k {
     fn c08_raw_sign_prehashed_matches_rfc8032_dom2() {
         let eb: [u8; 64] = kani::any();
         let kb: [u8; 32] = kani::any(); kani::assume(kb[0] & 1 == 0);
-        let ph: [u8; 2] = kani::any(); let plen: usize = kani::any(); kani::assume(plen <= 2);
-        let cx: [u8; 3] = kani::any(); let clen: usize = kani::any(); kani::assume(clen <= 3);
+        let ph: [u8; 1] = kani::any(); let plen: usize = kani::any(); kani::assume(plen <= 1);
+        let cx: [u8; 1] = kani::any(); let clen: usize = kani::any(); kani::assume(clen <= 1);
         let has_ctx: bool = kani::any();
         let esk = crate::hazmat::ExpandedSecretKey::from_bytes(&eb);
         let (_lo, hi) = split(&eb);
